@@ -118,6 +118,10 @@ def main(argv):
     if anchors:
         cov = monitor.LineCoverage(anchors)
         cov.start()
+    fcov = None
+    if os.environ.get('VERIF_FUNCCOV'):
+        fcov = monitor.FuncCoverage()
+        fcov.start()
     t0 = time.time()
     status = 'ok'
     try:
@@ -144,6 +148,11 @@ def main(argv):
         ctx.notes.append('worker crashed at case %r: %s' % (ctx.case_index, traceback.format_exc()[-3000:]))
     if cov is not None:
         cov.stop()
+    if fcov is not None:
+        fcov.stop()
+        os.makedirs(os.environ['VERIF_FUNCCOV'], exist_ok=True)
+        with open(os.path.join(os.environ['VERIF_FUNCCOV'], '%s-%d.json' % (prop, os.getpid())), 'w') as f:
+            json.dump(sorted(fcov.seen), f)
     out = {
         'status': status,
         'config': config,
